@@ -129,4 +129,34 @@ __CPROVER_ensures(out->name == g_db.name && out->energy == g_db.energy && out->b
                                              && self->exam_radionuclide.modality == self->imaging_modality              \
                                              && self->exam_radionuclide.name == (HDR_NAME(self) == NAME_EMPTY ? NAME_UNKNOWN : HDR_NAME(self)) \
                                              && self->exam_radionuclide.energy == (is_spect ? -1.F : 511.F)))
+
+/* ---- writer of the radionuclide keys (interfile.cxx) and the reader's key table (InterfileHeader constructor) ----
+   Key strings are ids (one table of string literals applied to both kernels by the extraction). The writer emits
+   (key, value) pairs; the key table binds a key to a member of the header object. TRUSTED between the two: KeyParser stores
+   the value found under key k[1] into element 0 of the member bound to k, and operator<< / the number parser reproduce the
+   float (6 significant digits by default - not decided). */
+enum { KEY_NONE, KEY_RN_NAME, KEY_RN_HALFLIFE, KEY_RN_BRANCHING, KEY_COUNT };
+enum { MEMBER_none, MEMBER_radionuclide_name, MEMBER_radionuclide_half_life, MEMBER_radionuclide_branching_ratio };
+int g_emit_count[KEY_COUNT]; float g_emit_value[KEY_COUNT]; int g_emit_name; /* what the writer emitted under each key */
+int g_bind[KEY_COUNT];                                                        /* member bound to each key by the reader */
+#define K_EMIT_name(key, v) (g_emit_count[key]++, g_emit_name = (v))
+#define K_EMIT_half_life(key, v) (g_emit_count[key]++, g_emit_value[key] = (v))
+#define K_EMIT_branching_ratio(key, v) (g_emit_count[key]++, g_emit_value[key] = (v))
+#define K_BIND(key, member) (g_bind[key] = (member))
+#define EMIT_ZERO (g_emit_count[KEY_RN_NAME] == 0 && g_emit_count[KEY_RN_HALFLIFE] == 0 && g_emit_count[KEY_RN_BRANCHING] == 0)
+/* the writer stores the name unless empty/"Unknown", the half life and the branching ratio when they are known (> 0), each
+   under its own key, once */
+#define CONTRACT_K_write_rn_info                                                                                      \
+  __CPROVER_requires(__CPROVER_is_fresh(exam_radionuclide, sizeof(*exam_radionuclide)) && RN_NOT_NAN(*exam_radionuclide) && EMIT_ZERO) \
+  __CPROVER_assigns(__CPROVER_object_whole(g_emit_count), __CPROVER_object_whole(g_emit_value), g_emit_name)           \
+  __CPROVER_ensures(g_emit_count[KEY_RN_HALFLIFE] == (exam_radionuclide->half_life > 0 ? 1 : 0)                        \
+                    && (exam_radionuclide->half_life > 0 ==> g_emit_value[KEY_RN_HALFLIFE] == exam_radionuclide->half_life)) \
+  __CPROVER_ensures(g_emit_count[KEY_RN_BRANCHING] == (exam_radionuclide->branching_ratio > 0 ? 1 : 0)                 \
+                    && (exam_radionuclide->branching_ratio > 0 ==> g_emit_value[KEY_RN_BRANCHING] == exam_radionuclide->branching_ratio)) \
+  __CPROVER_ensures(g_emit_count[KEY_RN_NAME] == ((exam_radionuclide->name != NAME_EMPTY && exam_radionuclide->name != NAME_UNKNOWN) ? 1 : 0) \
+                    && (g_emit_count[KEY_RN_NAME] == 1 ==> g_emit_name == exam_radionuclide->name))
+#define CONTRACT_K_ifh_rn_keys                                                                                        \
+  __CPROVER_assigns(__CPROVER_object_whole(g_bind))                                                                    \
+  __CPROVER_ensures(g_bind[KEY_RN_NAME] == MEMBER_radionuclide_name && g_bind[KEY_RN_HALFLIFE] == MEMBER_radionuclide_half_life \
+                    && g_bind[KEY_RN_BRANCHING] == MEMBER_radionuclide_branching_ratio)
 #endif
